@@ -108,6 +108,15 @@ def _defs():
             }
         },
     }
+    d["shared"] = {  # one node type below two parent types with different relation specs
+        "name": "shared",
+        "types": {"*": {":factory": DW}, "a": {"t": "a"}, "b": {"t": "b"}, "note": {"t": "note", "icon": "n"}},
+        "relations": {
+            "__root__": {"a": {":count": 1}, "b": {":count": 1}},
+            "a": {"note": {":count": 1, "title": "of-a {hier_idx}"}},
+            "b": {"note": {":count": 2, "title": "of-b {idx}", "x": RangeRandomizer(0, 2)}},
+        },
+    }
     d["deep"] = {
         "name": "deep",
         "types": {"a": {":factory": DW, "t": "a"}, "b": {":factory": DW, "t": "b"}, "c": {":factory": DW, "t": "c"}},
@@ -121,12 +130,12 @@ def _defs():
 
 
 def BOUNDS(tier):
-    return {"definitions": ["fixed", "range", "prob", "sample", "probcount", "deep"], "classes": ["Tree", "TypedTree"], "draws": NDRAWS}
+    return {"definitions": ["fixed", "range", "prob", "sample", "probcount", "shared", "deep"], "classes": ["Tree", "TypedTree"], "draws": NDRAWS}
 
 
 def shards(tier):
     out = []
-    for name in ("fixed", "range", "prob", "sample", "probcount", "deep"):
+    for name in ("fixed", "range", "prob", "sample", "probcount", "shared", "deep"):
         for cls in ("Tree", "TypedTree"):
             out.append({"name": "gen-%s-%s" % (name, cls), "def": name, "cls": cls, "cost": 50 if name in ("deep", "range") else 0})
     return out
